@@ -82,10 +82,28 @@ def make_service():
 
     calls = []
 
-    class Svc(SV.SimpleService):
-        service_id = SID
-        version_major = MAJ
-        version_minor = MINOR
+    if _MADE[0] % 2:
+        # the service class is the next version of an older one and derives from it (class CounterV2(CounterV1): version_major
+        # = 2); the older service of the same process has been in use before
+        class Old(SV.SimpleService):
+            service_id = SID ^ 0x0100
+            version_major = (MAJ + 1) & 0xFF
+            version_minor = MINOR
+
+        class Svc(Old):
+            service_id = SID
+            version_major = MAJ
+
+        old = Old(instance_id=1)
+        old.transport = Tr()
+        old.register_method(M_BYTES, lambda msg, addr: b"old")
+        old.datagram_received(refwire.encode_someip(dict(sid=SID ^ 0x0100, mid=M_BYTES, cid=1, sess=1, iv=(MAJ + 1) & 0xFF, mt=0, rc=0,
+                                                         payload=b"")), ("192.0.2.50", 30509), False)
+    else:
+        class Svc(SV.SimpleService):
+            service_id = SID
+            version_major = MAJ
+            version_minor = MINOR
 
     s = Svc(instance_id=1)
     s.transport = Tr()
